@@ -9,14 +9,14 @@ from props.c16 import _Desc
 
 LEVEL = "proof"
 MANIFEST = dict(
-    text="Lean 4 theorems for all block contents, all (start, length), all event streams of genuine segments (lost / duplicated / re-ordered / delayed across  Session 4: the same fault streams also run through the real engine loop (_thread_func, one iteration at a time) on a socket whose buffer holds whole bursts of datagrams (every segment doubled on every single-segment range): same outcome as the datagram-by-datagram run, property read directly. Also histories on ONE long-lived awaitable structure (transfers interleaved with partial-update patches, wholesale loads and overlapping transfers) and async_get_keeps_no_state_between_transfers / threaded_assembler_state_inventory over the regenerated skeletons."
+    text="Lean 4 theorems for all block contents, all (start, length), all event streams of genuine segments (lost / duplicated / re-ordered / delayed across "
          "attempts) and timeouts, by induction with the assembly invariant 'collected = a prefix of the chain': the async GeckoAsyncStructure.get and the "
          "threaded GeckoStructure assembler either install exactly the spa's bytes (installed_bytes: every requested byte equals the spa's, every other byte "
          "unchanged, size unchanged) or leave the client block untouched, and send at most retry / 1+budget requests; on a fault-free network the transfer "
          "succeeds for every start and every positive length (faultfree_success, full statement since the fix of D1). The simulator's per-segment arithmetic "
          "is translated from the source on every run; the assemblers are hand models tied by differential correspondence with the real classes driven "
          "by the real simulator's segment handlers through real STATV encode/decode under seeded fault streams."
-         " Since session 3: one long-lived simulator built by its real constructor serves the whole run; segments travel framed and are unwrapped by the real packet handler; the spa block carries the transport's own tags; an identical request repeated after the block changed must be served with the current bytes.",
+         " Since session 3: one long-lived simulator built by its real constructor serves the whole run; segments travel framed and are unwrapped by the real packet handler; the spa block carries the transport's own tags; an identical request repeated after the block changed must be served with the current bytes. Session 4: the same fault streams also run through the real engine loop (_thread_func, one iteration at a time) on a socket whose buffer holds whole bursts of datagrams (every segment doubled on every single-segment range): same outcome as the datagram-by-datagram run, property read directly. Also histories on ONE long-lived awaitable structure (transfers interleaved with partial-update patches, wholesale loads and overlapping transfers) and async_get_keeps_no_state_between_transfers / threaded_assembler_state_inventory over the regenerated skeletons. Also two transfers requested concurrently on one connection with a re-ordered opening segment, and transfer_holds_the_connection_for_all_its_attempts.",
     note="Trusted: Lean kernel, translator (cross-checked by sweeping (start,len) against the real simulator's queued segments), correspondence harness "
          "(virtual-time loop for the async client; stepped engine with patched clock for the threaded one). Datagram corruption and late segments of a "
          "different transfer window are outside the fault model (as in the property). Lock / polling / timeout timing is C06.",
@@ -219,6 +219,81 @@ def run_async_history(steps, blocks, cli):
                 ok = f"raised {type(e).__name__}: {e}"
             ft.cancel()
             out.append((ok, st.status_block))
+    vloop.run_virtual(body)
+    return out
+
+
+def run_async_pair(spa, cli, ra, rb, late_after=0.3, latency=0.5):
+    """TWO transfers requested concurrently on one connection (one structure, one protocol, its one lock) - ranges `ra` then `rb`.
+    The first request of A is answered with its chain minus segment 0, and segment 0 arrives LATE (re-ordered behind the final
+    segment); every other request is answered completely and in order.  Returns [(ok_a, ok_b), block]."""
+    import struct as _st
+    from geckolib.driver.async_spastruct import GeckoAsyncStructure
+    from geckolib.driver.async_udp_protocol import GeckoAsyncUdpProtocol
+    from geckolib.driver.protocol.statusblock import GeckoStatusBlockProtocolHandler
+    chains = {ra: real_chain(spa, *ra), rb: real_chain(spa, *rb)}
+    out = {}
+
+    async def body(loop):
+        proto = GeckoAsyncUdpProtocol(None, _Desc.destination)
+        tr = vloop.FakeTransport(loop, proto)
+        proto.connection_made(tr)
+
+        async def noop(*a):
+            pass
+        st = GeckoAsyncStructure(lambda *a: None, noop)
+        st.set_status_block(cli)
+        seen = [0]
+        first_a = [True]
+
+        async def answer(rng_, segs, late):
+            await asyncio.sleep(latency)            # the spa answers after a while: a late segment of an EARLIER request can overtake
+            for seg in segs:
+                proto.datagram_received(seg[3], SENDER)
+                while proto.queue.qsize():
+                    await asyncio.sleep(0.05)
+            if late is not None:
+                await asyncio.sleep(late_after)
+                proto.datagram_received(late[3], SENDER)
+
+        async def peer():
+            while True:
+                while len(tr.sent) == seen[0]:
+                    await asyncio.sleep(0.01)
+                data = tr.sent[seen[0]][1]
+                seen[0] += 1
+                i = data.find(b"STATU")
+                if i < 0:
+                    continue
+                _seq, start, length = _st.unpack(">BHH", data[i + 5:i + 10])
+                ch = chains.get((start, length))
+                if ch is None:
+                    continue
+                if (start, length) == ra and first_a[0] and len(ch) >= 3:
+                    first_a[0] = False
+                    asyncio.ensure_future(answer(ra, ch[1:], ch[0]))
+                else:
+                    asyncio.ensure_future(answer((start, length), ch, None))
+        pt = asyncio.ensure_future(peer())
+        seq = [0]
+
+        def mk(r):
+            def f():
+                seq[0] += 1
+                return GeckoStatusBlockProtocolHandler.request(seq[0] % 190 + 1, r[0], r[1], parms=SENDER)
+            return f
+
+        async def one(r):
+            try:
+                return await st.get(proto, mk(r), 3)
+            except Exception as e:  # noqa
+                return f"raised {type(e).__name__}: {e}"
+        ta = asyncio.ensure_future(one(ra))
+        await asyncio.sleep(0.01)
+        tb = asyncio.ensure_future(one(rb))
+        out["ok"] = (await ta, await tb)
+        out["block"] = st.status_block
+        pt.cancel()
     vloop.run_virtual(body)
     return out
 
@@ -626,6 +701,29 @@ def run(ctx):
                               "after a fault-free transfer every requested byte equals the spa's and no other byte changed (whatever happened to the client copy before)",
                               {"step": j, "result": str(ok)[:60], "first_differing_positions": bad, "len": len(blk)})
                 break
+    # ---- 2e. two transfers requested concurrently on one connection, the first one's opening segment re-ordered behind its final one:
+    #          the second caller must not be handed a segment of the first caller's chain
+    for ra, rb in [((0, 117), (200, 100)), ((300, 120), (700, 80)), ((256, 301), (0, 117))] + ([((0, 200), (512, 300))] if not ctx.quick else []):
+        try:
+            res = run_async_pair(spa, cli, ra, rb)
+        except Exception as e:  # noqa
+            ctx.violation("async-pair:raised", {"kind": "async-pair", "first": list(ra), "second": list(rb), "spa": "seeded"}, "the pair runs", f"{type(e).__name__}: {e}")
+            continue
+        ctx.count("evaluations")
+        ctx.hist("async_pairs", f"{res['ok']}")
+        blk = res["block"]
+        for who, r_, ok in (("first", ra, res["ok"][0]), ("second", rb, res["ok"][1])):
+            if ok is True and blk[r_[0]:r_[0] + r_[1]] != spa[r_[0]:r_[0] + r_[1]]:
+                bad = [i for i in range(r_[0], r_[0] + r_[1]) if blk[i] != spa[i]][:6]
+                ctx.violation(f"async-pair:install:{who}", {"kind": "async-pair", "first": list(ra), "second": list(rb), "spa": "seeded", "cli_hex": cli.hex()},
+                              "a transfer that reports success has installed the spa's bytes in its range (concurrent callers on one connection)",
+                              {"caller": who, "range": list(r_), "first_differing_positions": bad})
+            elif ok not in (True, False):
+                ctx.violation(f"async-pair:raised:{who}", {"kind": "async-pair", "first": list(ra), "second": list(rb), "spa": "seeded"}, "get returns True/False", str(ok)[:100])
+        other = [i for i in range(1024) if blk[i] != cli[i] and blk[i] != spa[i]][:6]
+        if other:
+            ctx.violation("async-pair:foreign-bytes", {"kind": "async-pair", "first": list(ra), "second": list(rb), "spa": "seeded", "cli_hex": cli.hex()},
+                          "no byte changes to anything but the spa's value", other)
     # ---- 3. histories of transfers on one threaded structure (the assembly state lives on the structure)
     multi = [p for p in todo if len(chains[p]) >= 2]
     for _ in range(40 if ctx.quick else 600):
@@ -682,6 +780,12 @@ def replay(inp):
     cli = bytes(rng.randrange(256) for _ in range(1024))
     if inp.get("spa_hex"):
         spa, cli = bytes.fromhex(inp["spa_hex"]), bytes.fromhex(inp["cli_hex"])
+    if inp.get("kind") == "async-pair":
+        res = run_async_pair(spa, cli, tuple(inp["first"]), tuple(inp["second"]))
+        blk = res["block"]
+        bad = [w for w, r_, ok in (("first", inp["first"], res["ok"][0]), ("second", inp["second"], res["ok"][1]))
+               if ok is True and blk[r_[0]:r_[0] + r_[1]] != spa[r_[0]:r_[0] + r_[1]]]
+        return bool(bad), {"results": [str(x) for x in res["ok"]], "callers_with_wrong_bytes": bad}
     if inp.get("kind") == "async-history":
         blocks = [bytes.fromhex(b) for b in inp["blocks_hex"]]
         cli = bytes.fromhex(inp["cli_hex"])
